@@ -159,6 +159,9 @@ class Address:
                     if _debug: Address._debug("    - local broadcast")
                     self.addrType = Address.localBroadcastAddr
 
+                elif global_broadcast:
+                    raise ValueError("station address on the global network")
+
                 elif net:
                     if _debug: Address._debug("    - remote station")
                     net_addr = int(net)
